@@ -77,7 +77,7 @@ class Scanner(Reader):
         return p
 
 
-def tasks(tier):
+def _tasks0(tier):
     out = []
     forms = ["slice:::", "slice:a::", "slice::b:", "slice:a:b:", "slice:a:b:s"]
     for nd in (2, 3):
@@ -116,9 +116,17 @@ def scenarios(tier, seed):
     n = 6 if tier == "quick" else 12
     return [{"kind": "iter_sweep", "seed": seed * 1000 + 50 + i, "ndims": 3 if i % 2 == 0 else 2,
              "nf": [4, 2, 6, 1][i % 4], "nlevels": 1 + i % 2, "nfiles": 1 + i % 4,
-             "layout": ["shuffled", "roundrobin", "monotone"][i % 3]} for i in range(n)]
+             "layout": ["shuffled", "roundrobin", "monotone"][i % 3]} for i in range(n)] + \
+        [{"kind": "iter_sweep", "seed": seed * 1000 + 90, "ndims": 3, "nf": 3, "nlevels": 2, "nfiles": 2, "layout": "shuffled", "n0": [9, 8, 8]}]
 
 
 def run_scenario(p, wd):
     from harness.rt_reader import run_iter_scenario
     return run_iter_scenario(p, wd)
+
+
+
+def tasks(tier):
+    # the FAB header parsers / formatter (real bodies on canonical header text): the obligations behind the header contracts
+    from props.parsers import parser_tasks
+    return _tasks0(tier) + parser_tasks("C15", nds=(2, 3))
